@@ -127,7 +127,9 @@ def histories():
                   extra="#[derive(Debug, PartialEq, Eq, Clone, Copy)]\npub struct CtorB;\nimpl savefile::ValueConstructor<u32> for CtorB { fn make_value() -> u32 { 0xA1B2C3D4 } }"))
     H.append(Hist("h7", [LF("a", "u8"), LF("b", "u8"), LF("c", "u16", added=1), LF("d", "u32", added=1, default=("val", "1000"))], 2, repr_c=True, tier="t",
                   note="packed repr(C) u8,u8,u16,u32: two fields added in version 1"))
-    H.append(Hist("h8", [LF("a", "u32"), LF("b", "u32", removed=1), LF("c", "u32")], 2, repr_c=True, tier="t",
+    H.append(Hist("h9", [LF("a", "u8"), LF("w", [(1, "u8", None), (2, "u16", None)], added=1), LF("z", "u8")], 3, tier="q",
+                  note="field added in version 1 (Default) and type-changed in version 2: loaded from before it existed and from the old type"))
+    H.append(Hist("h8", [LF("a", "u32"), LF("b", "u32", removed=1), LF("c", "u32")], 2, repr_c=True, tier="q",
                   note="packed repr(C): middle field removed (AbiRemoved): version 0 wire != memory layout of version 1"))
     return H
 
@@ -138,6 +140,8 @@ ENUMS = [
      [("A", []), ("B", [("u8", 0)]), ("C", [("u16", 0)], 1)], 2),
     ("e2", "t", "variant appended in version 1 and a field added to an existing variant in version 2",
      [("A", [("u8", 0), ("u16", 2)]), ("B", []), ("C", [("u32", 0)], 1)], 3),
+    ("e3", "q", "repr(u32) padding-free enum whose variant gains a field in version 1 (packed candidate)",
+     [("A", [("u32", 0), ("u32", 1)]), ("B", [("u32", 0), ("u32", 0)])], 2, "u32"),
 ]
 
 
@@ -229,7 +233,9 @@ def emit():
                 body += ["std::mem::forget(x); std::mem::forget(y);", 'kani::cover!(true, "reached end");']
                 c18["q" if h.tier == "q" else "t"].append("kproof!(%s_n%d_k%d, %d, {\n        %s\n    });" % (h.name, n, k, uw, "\n        ".join(body)))
     # ---------------- enum histories
-    for (name, tier, note, variants, nver) in ENUMS:
+    for ent in ENUMS:
+        (name, tier, note, variants, nver) = ent[:5]
+        erepr = ent[5] if len(ent) > 5 else None
         out.append("pub mod %s {\n    use super::*;" % name)
         defs = []
         for k in range(nver):
@@ -242,7 +248,7 @@ def emit():
                     if fadd > k: continue
                     fl.append(('#[savefile_versions = "%d.."] ' % fadd if fadd > 0 else "") + ft)
                 vs.append(('#[savefile_versions = "%d.."] ' % vadd if vadd > 0 else "") + v[0] + ("(%s)" % ", ".join(fl) if fl else ""))
-            d = "    #[derive(Savefile)]\n    pub enum E { %s }" % ", ".join(vs)
+            d = "    #[derive(Savefile)]\n    %spub enum E { %s }" % (("#[repr(%s)]\n    " % erepr) if erepr else "", ", ".join(vs))
             defs.append(d)
             out.append("    pub mod v%d {\n    use super::*;\n%s\n    }" % (k, d))
         out.append("}")
@@ -275,6 +281,7 @@ def emit():
                 body.append("let (y, left) = de::<%s::v%d::E>(&buf[..nn], %d).unwrap();" % (name, k, k))
                 body.append('assert!(left == 0, "C18: the version-%d enum definition did not consume exactly the data written at version %d");' % (k, k))
                 body.append('assert!(buf[0] == %du8, "C18: discriminant written for an older version is not the variant index");' % idx)
+                body.append('assert!(nn == %d, "C18: data written at version %d has a different length than the version-%d encoding");' % ((INT[erepr] if erepr else 1) + sum(INT[ft] for (ft, _) in fk), k, k))
                 pat_x = "%s::v%d::E::%s%s" % (name, n, v[0], "(%s)" % ", ".join("a%d" % t for t in range(len(fn_))) if fn_ else "")
                 pat_y = "%s::v%d::E::%s%s" % (name, k, v[0], "(%s)" % ", ".join("b%d" % t for t in range(len(fk))) if fk else "")
                 conds = ["(*a%d == *b%d)" % (t, t) for t in range(len(fk))]
